@@ -533,6 +533,7 @@ struct LPlan
   int reconnectTarget{0};
   bool waitBeforeStop{false}; // wait (bounded) for every definite cause before the final stop
   bool allowRearmAfterClose{false}; // fixed reproducers of C02-2 only
+  bool unobserveInGlobal{false}; // the global close callback unobserves one observer of the closing session
   bool restart{false};        // after the stop: start() again, one accept + one connect, stop() (ids stay distinct)
   std::vector<LOp> ops;
 };
@@ -542,7 +543,7 @@ std::string describeLife(const LPlan &p)
   std::string s = p.udp ? "udp" : "tcp";
   s += pbt::Fmt() << " edge=" << p.edge << " hiRes=" << p.hiRes << " batch=" << p.batching << " gc=" << p.gcCase
                   << " connTmo=" << p.connectTimeoutMs << " mwq=" << p.maxWriteQueue << " reconnectInClose=" << p.reconnect
-                  << "/" << targetName(p.reconnectTarget) << " waitBeforeStop=" << p.waitBeforeStop << " restart=" << p.restart << " ops:";
+                  << "/" << targetName(p.reconnectTarget) << " waitBeforeStop=" << p.waitBeforeStop << " restart=" << p.restart << " unobserveInGlobal=" << p.unobserveInGlobal << " ops:";
   for (auto &o : p.ops)
   {
     s += std::string(" ") + opName(o.op);
@@ -610,6 +611,18 @@ void runLifecycle(const LPlan &plan, pbt::Case &c)
     std::uint64_t sid;
   };
   std::deque<Payload> payloads;
+  // observers registered by the harness thread; the global close callback (I/O thread) may
+  // unobserve one of the closing session's observers from inside the callback
+  struct ObsRec
+  {
+    std::uint64_t tag;
+    ObserverId h;
+    SessionId sid;
+    bool unobserveTried;
+  };
+  std::mutex obsMu;
+  std::vector<ObsRec> observers;
+  std::atomic<bool> unobservedInGlobal{false};
   std::atomic<int> reconnectsLeft{plan.reconnect};
   std::uint16_t reconnectPort = 0; // fixed before start()
   const std::string badHost = "not a host name";
@@ -654,6 +667,30 @@ void runLifecycle(const LPlan &plan, pbt::Case &c)
     [&](SessionId sid, const TransportErrorInfo &e)
     {
       log.addCb(K::CloseBegin, sid, static_cast<std::uint64_t>(e.code), gauge());
+      if (plan.unobserveInGlobal)
+      {
+        // unobserve one of THIS session's observers from inside the global callback of its close:
+        // the observer list is read after the global callback, so it must succeed and silence it
+        ObsRec pick{0, 0, 0, true};
+        {
+          std::lock_guard<std::mutex> lk(obsMu);
+          for (auto &o : observers)
+            if (o.sid == sid && !o.unobserveTried)
+            {
+              o.unobserveTried = true;
+              pick = o;
+              pick.unobserveTried = false;
+              break;
+            }
+        }
+        if (!pick.unobserveTried)
+        {
+          log.add(K::UnobsBegin, sid, pick.tag);
+          bool r = tp->unobserve(pick.h);
+          log.add(K::UnobsEnd, sid, pick.tag, r ? 1 : 0);
+          unobservedInGlobal.store(true);
+        }
+      }
       // the classic "reconnect from the close callback" pattern
       if (reconnectsLeft.load() > 0 && reconnectsLeft.fetch_sub(1) > 0)
       {
@@ -693,12 +730,6 @@ void runLifecycle(const LPlan &plan, pbt::Case &c)
   }
 
   std::vector<Sess> sess;
-  struct ObsRec
-  {
-    std::uint64_t tag;
-    ObserverId h;
-  };
-  std::vector<ObsRec> observers;
   std::uint64_t nextTag = 1;
   bool stopped = false;
   std::set<std::uint64_t> causeKinds;
@@ -1143,17 +1174,32 @@ void runLifecycle(const LPlan &plan, pbt::Case &c)
           log.add(K::ObsBegin, sid, tag);
           ObserverId h = t->observe(sid, [&log, tag, gauge](SessionId x, const TransportErrorInfo &) { log.addCb(K::Observer, x, tag, gauge()); });
           log.add(K::ObsEnd, sid, tag);
-          observers.push_back(ObsRec{tag, h});
+          {
+            std::lock_guard<std::mutex> lk(obsMu);
+            observers.push_back(ObsRec{tag, h, sid, false});
+          }
         }
       break;
     case Unobserve:
-      if (!observers.empty())
+    {
+      ObsRec o{0, 0, 0, true};
       {
-        auto &o = observers[static_cast<std::size_t>(op.a) % observers.size()];
+        std::lock_guard<std::mutex> lk(obsMu);
+        if (!observers.empty())
+        {
+          auto &ref = observers[static_cast<std::size_t>(op.a) % observers.size()];
+          o = ref;
+          o.unobserveTried = false;
+          ref.unobserveTried = true; // the checker judges the FIRST unobserve of an observer only
+        }
+      }
+      if (!o.unobserveTried)
+      {
         log.add(K::UnobsBegin, 0, o.tag);
         bool r = t->unobserve(o.h);
         log.add(K::UnobsEnd, 0, o.tag, r ? 1 : 0);
       }
+    }
       break;
     case SetData:
       if (auto *s = pick(op.a))
@@ -1346,6 +1392,7 @@ void runLifecycle(const LPlan &plan, pbt::Case &c)
   if (openAtStop) c.label("stop with open sessions");
   if (racedOne) c.label("two causes raced on one session");
   if (usedModes) c.label("read modes used");
+  if (unobservedInGlobal.load()) c.label("unobserve() inside the global close callback of the same close");
   if (sharedPeers) c.label("udp: second session to a peer address that already has one");
   if (bail) c.label("history cut short (harness)");
   {
@@ -1384,6 +1431,7 @@ LPlan genLifePlan(pbt::Src &src, bool udp)
   p.reconnectTarget = static_cast<int>(src.weighted({3, 2, 1}));
   p.waitBeforeStop = src.coin(1, 2);
   p.restart = src.coin(1, 6);
+  p.unobserveInGlobal = src.coin(1, 4);
   auto rows = src.rows(22, 4, 0, 999);
   // weighted op table
   static const int wt[] = {NewAccept, NewAccept, NewAccept, NewAccept, NewConnect, NewConnect, NewConnect, NewConnect, NewSync,
@@ -1555,6 +1603,25 @@ PBT_REGRESSION(rearm_after_close_udp)
   p.udp = true;
   p.allowRearmAfterClose = true;
   p.ops = {{NewAccept, 0, 0, 0}, {HandBack, 0, 0, 0}, {SetMode, 0, 2, 0}, {SetMode, 0, 0, 0}};
+  runLifecycle(p, c);
+}
+// unobserve() of the closing session's observer from inside the global close callback
+PBT_REGRESSION(unobserve_in_global_tcp)
+{
+  LPlan p;
+  p.udp = false;
+  p.unobserveInGlobal = true;
+  p.waitBeforeStop = true;
+  p.ops = {{NewAccept, 0, 0, 0}, {Observe, 0, 0, 0}, {Observe, 0, 0, 0}, {Observe, 0, 0, 0}, {SetData, 0, 0, 0}, {AppClose, 0, 0, 0}, {Quiesce, 0, 0, 0},
+           {NewAccept, 0, 0, 0}, {Observe, 1, 0, 0}, {PeerFin, 1, 0, 0}, {Quiesce, 0, 0, 0}};
+  runLifecycle(p, c);
+}
+PBT_REGRESSION(unobserve_in_global_udp)
+{
+  LPlan p;
+  p.udp = true;
+  p.unobserveInGlobal = true;
+  p.ops = {{NewAccept, 0, 0, 0}, {Observe, 0, 0, 0}, {Observe, 0, 0, 0}, {AppClose, 0, 0, 0}, {Quiesce, 0, 0, 0}, {NewAccept, 0, 0, 0}, {Observe, 1, 0, 0}};
   runLifecycle(p, c);
 }
 // every close cause once, sequentially, TCP
